@@ -558,4 +558,8 @@ def run(src, out):
     gpwgen.run(src, out, hdr)
     import ellgen
     ellgen.run(src, out, hdr)
+    import empgen
+    empgen.run(src, out, hdr)
+    import acqgen
+    acqgen.run(src, out, hdr)
     return hdr
